@@ -648,7 +648,7 @@ impl Disk
                     }
                     if let Some(ftype) = maybe_ftype {
                         match FileType::from_str(ftype) {
-                            Ok(typ) => entry.file_type = typ as u8,
+                            Ok(typ) => entry.file_type = (typ as u8) | (entry.file_type & 0x80), // keep the lock bit
                             Err(e) => return Err(Box::new(e))
                         }
                     }
